@@ -173,7 +173,22 @@ def find_memo_sites(fi: FuncInfo):
                 if isinstance(t, ast.Subscript):
                     stores.append((norm(t.value), t.slice, n.value, n))
     lookups = set()  # any read of C under the key
-    guarded = set()  # reads that *test* for presence: `K in C`, `C.get(K)` - the memo idiom whatever C is called
+    guarded = set()  # reads that *test* for presence: `K in C`, `C.get(K)`, `try: C[K] except KeyError` - the memo idiom whatever C is called
+    for t in ast.walk(fn):
+        if isinstance(t, ast.Try) and any(h.type is not None and "KeyError" in norm(h.type) for h in t.handlers):
+            for st in t.body:
+                for n in ast.walk(st):
+                    if isinstance(n, ast.Subscript) and isinstance(n.ctx, ast.Load):
+                        guarded.add((norm(n.value), norm(n.slice)))
+    # a memo of memos: `inner = self.C.setdefault(K1, {})` / `inner = self.C[K1]`, then `inner[K2] = v` is self.C[(K1, K2)] = v
+    nested = {}
+    for name, ds in defs.items():
+        if len(ds) == 1 and name not in defs.unpacked:
+            d = ds[0]
+            if isinstance(d, ast.Call) and isinstance(d.func, ast.Attribute) and d.func.attr in ("setdefault", "get") and d.args and norm(d.func.value).startswith("self."):
+                nested[name] = (norm(d.func.value), d.args[0])
+            elif isinstance(d, ast.Subscript) and norm(d.value).startswith("self."):
+                nested[name] = (norm(d.value), d.slice)
     for n in ast.walk(fn):
         if isinstance(n, ast.Call) and isinstance(n.func, ast.Attribute) and n.func.attr == "get" and n.args:
             lookups.add((norm(n.func.value), norm(n.args[0])))
@@ -184,7 +199,10 @@ def find_memo_sites(fi: FuncInfo):
             lookups.add((norm(n.comparators[0]), norm(n.left)))
             guarded.add((norm(n.comparators[0]), norm(n.left)))
     for cache, key, val, n in stores:
-        if (cachey(cache) and (cache, norm(key)) in lookups) or ((cache, norm(key)) in guarded and cache.startswith("self.")):
+        if cache in nested and (cache, norm(key)) in guarded:
+            outer, k1 = nested[cache]
+            sites.append((outer, ast.Tuple(elts=[k1, key], ctx=ast.Load()), val, n))
+        elif (cachey(cache) and (cache, norm(key)) in lookups) or ((cache, norm(key)) in guarded and cache.startswith("self.")):
             sites.append((cache, key, val, n))
     out = []
     for cache, key, val, n in sites:
@@ -509,6 +527,22 @@ class Alg:
         r = self._memo[o] = self.build(o, a)
         return r
 
+    def good_nested(self, k, a):
+        inner = self._table.setdefault(k, {})
+        try:
+            r = inner[a]
+        except KeyError:
+            r = inner[a] = self.build(k, a)
+        return r
+
+    def bad_nested(self, k, a, b):
+        inner = self._table.setdefault(k, {})
+        try:
+            r = inner[a]
+        except KeyError:
+            r = inner[a] = self.build(k, a, b)
+        return r
+
     def bad_shared_a(self, o, n):
         return self._rules_cache.setdefault((Alg, n), RulesA(n))(o)
 
@@ -572,8 +606,9 @@ def positive_control(ctx):
     probe = Report("probe")
     check_memo_keys(ctx, probe, "probe", [name], min_sites=0)
     flagged = {f.scope.split(".")[-1] for f in probe.findings}
-    if flagged != {"bad", "bad_built_in_place", "bad_shared_b", "bad_singleton", "bad_shared_between_objects", "bad_extends_shared"}:
-        raise AnalysisError(f"memo-key positive control: flagged {sorted(flagged)}, expected bad, bad_built_in_place, bad_shared_b, bad_singleton, bad_shared_between_objects, bad_extends_shared")
+    expected = {"bad", "bad_built_in_place", "bad_shared_b", "bad_singleton", "bad_shared_between_objects", "bad_extends_shared", "bad_nested"}
+    if flagged != expected:
+        raise AnalysisError(f"memo-key positive control: flagged {sorted(flagged)}, expected {sorted(expected)}")
 
 
 def memo_rule(ctx, rep, rule, modules, min_sites=0):
